@@ -1,6 +1,6 @@
 (* Property C03 -- watchers get every committed change, only committed changes, and end up current *)
 (* Statements only: each theorem restates the proved lemma's statement and is closed by [exact]. *)
-From NunDB Require Import Model.Base Model.Pending Model.Parse Model.Node Proofs.DbProofs Proofs.WatchProofs.
+From NunDB Require Import Model.Base Model.Pending Model.Parse Model.Node Proofs.DbProofs Proofs.WatchProofs Model.Sched Proofs.SchedProofs.
 Local Open Scope Z_scope.
 
 (* an accepted write sends every subscription of the key exactly one changed / changed-version pair carrying the stored value and version; subscriptions are untouched *)
@@ -211,3 +211,95 @@ Theorem C03_stale_subscription_after_db_switch :
          s_inbox (get_sess (ex_run n [(0%nat, "set k v9")]) 1) = concat (repeat (change_lines "k" "v9" 0) 2).
 Proof. exact stale_subscription_after_db_switch. Qed.
 Print Assumptions C03_stale_subscription_after_db_switch.
+
+Theorem C03_sched_watch_release :
+  forall (n : node) (t : thr) (dbn key : str) (d : db),
+         sched_thr t ->
+         t_pc t = PcWatch dbn key ->
+         get_db n dbn = Some d ->
+         let n' := fst (release n t) in
+         exists d' : db,
+           get_db n' dbn = Some d' /\
+           watchers_of d' key = watchers_of d key ++ [t_sid t] /\
+           (forall k' : str, k' <> key -> watchers_of d' k' = watchers_of d k') /\
+           d_map d' = d_map d /\ (forall x : str, x <> dbn -> get_db n' x = get_db n x).
+Proof. exact watch_release. Qed.
+Print Assumptions C03_sched_watch_release.
+
+Theorem C03_sched_unwatch_release :
+  forall (n : node) (t : thr) (dbn key : str) (d : db),
+         sched_thr t ->
+         t_pc t = PcUnwatch dbn key ->
+         get_db n dbn = Some d ->
+         let n' := fst (release n t) in
+         exists d' : db,
+           get_db n' dbn = Some d' /\
+           watchers_of d' key = filter (fun x : nat => negb (x =? t_sid t)%nat) (watchers_of d key) /\
+           (forall k' : str, k' <> key -> watchers_of d' k' = watchers_of d k') /\
+           d_map d' = d_map d /\ (forall x : str, x <> dbn -> get_db n' x = get_db n x).
+Proof. exact unwatch_release. Qed.
+Print Assumptions C03_sched_unwatch_release.
+
+Theorem C03_sched_other_release_keeps_watch :
+  forall (n : node) (t : thr),
+         sched_thr t ->
+         match step_op n t with
+         | Some (_, LWatch _ _) | Some (_, LUnwatch _ _) => False
+         | _ => True
+         end ->
+         forall x : str, option_map d_watch (get_db (fst (release n t)) x) = option_map d_watch (get_db n x).
+Proof. exact other_release_keeps_watch. Qed.
+Print Assumptions C03_sched_other_release_keeps_watch.
+
+(* other sessions' releases never change a session's subscription count *)
+Theorem C03_sched_other_session_release :
+  forall (n : node) (t : thr) (s : nat),
+         sched_thr t ->
+         t_sid t <> s ->
+         forall (dbn : str) (d : db) (k : str),
+         get_db n dbn = Some d ->
+         exists d' : db,
+           get_db (fst (release n t)) dbn = Some d' /\
+           count_occ Nat.eq_dec (watchers_of d' k) s = count_occ Nat.eq_dec (watchers_of d k) s.
+Proof. exact other_session_release. Qed.
+Print Assumptions C03_sched_other_session_release.
+
+(* UNBOUNDED INTERLEAVINGS: a session's subscription count after any schedule is the replay of the log (watch +1, own unwatch resets) *)
+Theorem C03_sched_no_lost_subscription :
+  forall (n : node) (ts : list thr) (sched : list nat) (dbn : str) (d : db) (k : str) (s : nat),
+         Forall sched_thr ts ->
+         get_db n dbn = Some d ->
+         exists d' : db,
+           get_db (fst (run_schedule n ts sched)) dbn = Some d' /\
+           count_occ Nat.eq_dec (watchers_of d' k) s =
+           fold_left (sub_step s k) (ops_on dbn (full_log n ts sched))
+             (count_occ Nat.eq_dec (watchers_of d k) s).
+Proof. exact no_lost_subscription. Qed.
+Print Assumptions C03_sched_no_lost_subscription.
+
+Theorem C03_sched_no_lost_subscription_closed :
+  forall (n : node) (ts : list thr) (sched : list nat) (dbn : str) (d : db) (k : str) (s : nat),
+         Forall sched_thr ts ->
+         get_db n dbn = Some d ->
+         let ops := ops_on dbn (full_log n ts sched) in
+         exists d' : db,
+           get_db (fst (run_schedule n ts sched)) dbn = Some d' /\
+           ((forall l : lop, In l ops -> is_unwatch_of s k l = false) ->
+            count_occ Nat.eq_dec (watchers_of d' k) s =
+            (count_occ Nat.eq_dec (watchers_of d k) s + watch_count s k ops)%nat) /\
+           (forall (a : list lop) (l : lop) (b : list lop),
+            ops = a ++ l :: b ->
+            is_unwatch_of s k l = true ->
+            (forall x : lop, In x b -> is_unwatch_of s k x = false) ->
+            count_occ Nat.eq_dec (watchers_of d' k) s = watch_count s k b).
+Proof. exact no_lost_subscription_closed. Qed.
+Print Assumptions C03_sched_no_lost_subscription_closed.
+
+(* map and watcher table after any schedule = sequential replay of the full log *)
+Theorem C03_sched_schedule_full :
+  forall (sched : list nat) (n : node) (ts : list thr) (dbn : str),
+         Forall sched_thr ts ->
+         get_db (fst (run_schedule n ts sched)) dbn =
+         option_map (fun d : db => fold_left lop_apply (ops_on dbn (full_log n ts sched)) d) (get_db n dbn).
+Proof. exact schedule_full. Qed.
+Print Assumptions C03_sched_schedule_full.
